@@ -346,12 +346,12 @@ def rule_depr_origin(ctx):
         else:
             obs.append(bad('ALIAS-KEY', inst, 'the JSON key of this field is %s (Rust name from %s)' % (P.show(g, 0, 4)[:90], P.show(r_, 0, 4)[:70]), node.get('sp', ''),
                            'an aliased field of this kind is read from the wrong key: missing field / silently None'))
-    if sum(1 for o in obs if o.rule == 'ALIAS-KEY') < 3:
-        obs.append(bad('ALIAS-KEY', 'floor', 'anchor-missing: expected >= 3 named-field constructions of ExpandedField'))
+    if sum(1 for o in obs if o.rule == 'ALIAS-KEY') < 1:
+        obs.append(bad('ALIAS-KEY', 'floor', 'anchor-missing: no named-field construction of ExpandedField found'))
     named_n = sum(1 for o in obs if '/named[' in o.instance and o.rule == 'DEPR-ORIGIN')
     spread_n = sum(1 for o in obs if o.instance.endswith('/spread') and o.rule == 'DEPR-ORIGIN')
-    if named_n < 3 or spread_n < 1:
-        obs.append(bad('DEPR-ORIGIN', 'floor', 'anchor-missing: expected >= 3 named-field and >= 1 spread-field constructions of ExpandedField, found %d/%d' % (named_n, spread_n)))
+    if named_n < 1 or spread_n < 1:
+        obs.append(bad('DEPR-ORIGIN', 'floor', 'anchor-missing: expected a named-field and a spread-field construction of ExpandedField, found %d/%d' % (named_n, spread_n)))
     return obs
 
 
